@@ -185,7 +185,10 @@ fn add_types_recursive(
     ty: Handle<Type>,
 ) {
     verif_point!("add_types_recursive");
-    types.insert(ty);
+    // Types that were already added have been searched before.
+    if !types.insert(ty) {
+        return;
+    }
 
     match &module.types[ty].inner {
         naga::TypeInner::Pointer { base, .. } => add_types_recursive(types, module, *base),
